@@ -15,14 +15,19 @@
 (* The kernel K is NOT specified by the property, except that on the grid  *)
 (* it is the unit impulse: K(0) = 1, K(m) = 0 for integers m # 0.  So at   *)
 (* x = 0 the output is the centre tap f[idx] (SInterp0); for other x the   *)
-(* model only says which taps are read (LeftTaps / RightTaps).             *)
+(* model says which taps are read (LeftTaps / RightTaps) and that the      *)
+(* output is the weighted sum of exactly those frames, for whatever        *)
+(* weights (SInterpK, abstract kernel).                                    *)
 (*                                                                         *)
 (* Layer 1 (property): with the frames pushed since the last reset / start *)
 (* as a sequence hist, the output at x = 0 is the frame pushed depth pushes *)
 (* ago (hist[Len - depth], 0-based) and silence while fewer than depth     *)
 (* frames have been pushed: Grid(hist, depth).  A Converter at ratio 1     *)
 (* therefore yields source frame k - depth as its k-th output (k = 0, 1,   *)
-(* ...) after pulling exactly k source frames.                             *)
+(* ...) after pulling exactly k source frames.  At any position the output *)
+(* is a linear form over the buffered frames = the last 2*depth frames of  *)
+(* the history (BufLin): nothing else the history may have been (how long  *)
+(* ago it fell silent, how it was primed) can matter.                      *)
 (***************************************************************************)
 EXTENDS Naturals, Integers, Sequences
 RB == INSTANCE RingBuffer
@@ -69,6 +74,17 @@ ConvNext(c, nxt) ==
       c |-> [s |-> s1, acc |-> a1 + 1, pulled |-> IF adv THEN c.pulled + 1 ELSE c.pulled],
       x |-> a1]
 
+\* interpolate(x) for an ABSTRACT kernel: the tap sum as coded, with weight KL[n] on the n-th left tap and KR[n] on
+\* the n-th right tap (n = 0 .. depth-1; for a given x the code's weights are K(x + n) and K(1 - x + n)).  The
+\* property does not fix K; whatever it is, this is the shape of the computation: no term depends on the VALUE of
+\* a frame other than through its product with a weight, and nothing but the ring and idx is read.
+SInterpK(s, KL, KR) ==
+  LET m == SMaxDepth(s)
+      F[n \in 0..m] == IF n = 0 THEN 0
+                       ELSE F[n - 1] + KL[n - 1] * RB!FGet(s.f, s.idx - (n - 1))
+                                     + KR[n - 1] * RB!FGet(s.f, s.idx + 1 + (n - 1))
+  IN F[m]
+
 ---------------------------------------------------------------------------
 (* layer 1 *)
 \* output on the grid after the frames `hist` (oldest first) have been pushed since reset
@@ -79,4 +95,22 @@ SrcAtOr(src, j, sil) == IF j >= 0 /\ j < Len(src) THEN src[j + 1] ELSE sil
 ConvOutOr(src, depth, k, sil) == SrcAtOr(src, k - depth, sil)
 ConvOut(src, depth, k) == ConvOutOr(src, depth, k, Silence)
 ConvPulled(k) == k                             \* frames pulled when the k-th output is returned
+
+\* "the interpolated frame is a linear function of the buffered frames": the buffer after the frames `hist` is the
+\* last 2 depth frames of (2 depth silent frames followed by hist), Buffered(.., i) for i = 0 (oldest) .. 2 depth - 1;
+\* the read position is Centre (it moves up while priming), HalfWidth taps on each side are summed, and the
+\* outermost right tap of a primed interpolator is the OLDEST buffered frame (index 2 depth wraps to 0; its weight
+\* is the kernel's last, near-zero value -- see notes/dsp2.md).  In particular: the output is determined by the
+\* buffered frames alone, a silent buffer gives silence, and scaling / superposition of histories carry over.
+Buffered(hist, depth, i) == LET j == Len(hist) + i - 2 * depth + 1 IN IF j >= 1 THEN hist[j] ELSE Silence
+Centre(hist, depth) == IF Len(hist) <= depth THEN Len(hist) ELSE depth
+HalfWidth(hist, depth) == IF Centre(hist, depth) + 1 < depth THEN Centre(hist, depth) + 1 ELSE depth
+BufLin(hist, depth, KL, KR) ==
+  LET c == Centre(hist, depth)
+      m == HalfWidth(hist, depth)
+      F[n \in 0..m] == IF n = 0 THEN 0
+                       ELSE F[n - 1] + KL[n - 1] * Buffered(hist, depth, c - (n - 1))
+                                     + KR[n - 1] * Buffered(hist, depth, (c + 1 + (n - 1)) % (2 * depth))
+  IN F[m]
+BufSilent(hist, depth) == \A i \in 0..(2 * depth - 1) : Buffered(hist, depth, i) = Silence
 =============================================================================
